@@ -57,7 +57,9 @@ KEYWORDS = None
 
 
 class Gen:
-    def __init__(self, rng, keywords):
+    def __init__(self, rng, keywords, renderable=False):
+        # renderable: stay inside the constructs the re-renderer handles (C10 `Renderable`, see known_findings.jsonl)
+        self.renderable = renderable
         self.rng = rng
         self.kw = {k.upper() for k in keywords}
         self.counter = 0
@@ -102,6 +104,7 @@ class Gen:
     def signed_integer(self):
         lex, v = self.integer()
         r = self.rng.random()
+        if self.renderable: r = max(r, 0.3)
         if r < 0.25: return [('p', '-')] + lex, self.sx_signed(v, True)
         if r < 0.35: return [('p', '+')] + lex, self.sx_signed(v, False)
         return lex, self.sx_signed(v, False)
@@ -109,7 +112,10 @@ class Gen:
     def constant(self, kinds=None):
         """-> lex, ConstantKind tree"""
         rng = self.rng
-        k = rng.choice(kinds or ['int', 'int', 'typed-int', 'based', 'real', 'bool', 'str', 'wstr', 'dur', 'tod', 'date', 'dt', 'bits'])
+        kinds = kinds or ['int', 'int', 'typed-int', 'based', 'real', 'bool', 'str', 'wstr', 'dur', 'tod', 'date', 'dt', 'bits']
+        if self.renderable:
+            kinds = [x for x in kinds if x not in ('typed-int',)] or ['int']
+        k = rng.choice(kinds)
         self.features.add('const:' + k)
         if k == 'int':
             lex, t = self.signed_integer()
@@ -127,6 +133,8 @@ class Gen:
             txt = rng.choice(['1.5', '0.25', '3.14_15', '2.5E3', '1.0e-2', '6.0E+2', '10.0'])
             sign = rng.choice(['', '', '-', '+'])
             ty = rng.choice([None, None, 'REAL', 'LREAL'])
+            if self.renderable:
+                txt = rng.choice(['1.5', '0.25', '3.14_15', '1.0e-2']); sign = rng.choice(['', '+']); ty = None
             lex = ([('kw', ty), ('p', '#')] if ty else []) + ([('p', sign)] if sign else []) + [('lit', txt)]
             val = ('-' if sign == '-' else '') + txt.replace('_', '')
             return lex, T('RealLiteral', N('RealLiteral', ('value', A('R:' + val)), ('data_type', OPT(A(ty)) if ty else NONE)))
@@ -150,7 +158,7 @@ class Gen:
             whole = rng.randint(0, 500)
             frac = rng.choice(['', '', '.5', '.25', '.125'])
             total = whole * ns + (int(float('0' + frac) * 1000) * ns // 1000 if frac else 0)
-            neg = rng.random() < 0.2
+            neg = rng.random() < 0.2 and not self.renderable
             pre = rng.choice([('kw', 'TIME'), ('kw', 'T'), ('pk', 't')])
             if pre == ('kw', 'T'): pre = ('pk', 'T')
             lex = [pre, ('p', '#')] + ([('p', '-')] if neg else []) + [('lit', f'{whole}{frac}'), ('pk', unit)]
@@ -248,7 +256,7 @@ class Gen:
         head = T('Named', N('NamedVariable', ('name', name)))
         n = rng.choice([1, 1, 2]) if force_complex else rng.choice([0, 0, 1, 2])
         for _ in range(n):
-            if rng.random() < 0.5:
+            if rng.random() < 0.5 or self.renderable:
                 flex, f = self.ident()
                 lex += [('p', '.')] + flex
                 head = T('Structured', N('StructuredVariable', ('record', head), ('field', f)))
@@ -269,6 +277,7 @@ class Gen:
     def param_assignment(self):
         rng = self.rng
         r = rng.random()
+        if self.renderable: r = 0.9
         if r < 0.25:
             slex, s = self.ident(); tlex, t = self.variable()
             neg = rng.random() < 0.3
@@ -302,6 +311,7 @@ class Gen:
     def statement(self, depth):
         rng = self.rng
         kinds = ['assign', 'assign', 'fbcall', 'return', 'exit']
+        if self.renderable: kinds = ['assign']
         if depth > 0: kinds += ['if', 'case', 'for', 'while', 'repeat']
         k = rng.choice(kinds)
         self.features.add('stmt:' + k)
@@ -336,15 +346,16 @@ class Gen:
             groups = []
             for _ in range(rng.randint(1, 3)):
                 sels = []
-                for _ in range(rng.choice([1, 1, 2, 3])):
+                for _ in range(1 if self.renderable else rng.choice([1, 1, 2, 3])):
                     r = rng.random()
+                    if self.renderable: r = rng.choice([0.1, 0.9])
                     if r < 0.4:
                         l, t = self.signed_integer(); sels.append((l, T('SignedInteger', t)))
                     elif r < 0.7:
                         l1, t1 = self.signed_integer(); l2, t2 = self.signed_integer()
                         sels.append((l1 + [('p', '..')] + l2, T('Subrange', N('Subrange', ('start', t1), ('end', t2)))))
                     else:
-                        tl, tt = (self.type_name() if rng.random() < 0.3 else (None, None))
+                        tl, tt = (self.type_name() if rng.random() < 0.3 and not self.renderable else (None, None))
                         vl, v = self.ident()
                         sels.append(((tl + [('p', '#')] if tl else []) + vl,
                                      T('EnumeratedValue', N('EnumeratedValue', ('type_name', OPT(tt)), ('value', v)))))
@@ -382,6 +393,7 @@ class Gen:
     def enumerated_value(self, with_type=None):
         rng = self.rng
         with_type = rng.random() < 0.2 if with_type is None else with_type
+        if self.renderable: with_type = False
         tl, tt = self.type_name() if with_type else (None, None)
         vl, v = self.ident()
         return (tl + [('p', '#')] if tl else []) + vl, N('EnumeratedValue', ('type_name', OPT(tt)), ('value', v))
@@ -426,8 +438,10 @@ class Gen:
                 cl, c = self.constant(['int', 'real', 'bool', 'str', 'based']); il, it = cl, T('Constant', c)
             elif r < 0.7:
                 el, e = self.enumerated_value(); il, it = el, T('EnumeratedValue', e)
-            elif r < 0.85 or depth <= 0:
+            elif (r < 0.85 or depth <= 0) and not self.renderable:
                 al, a = self.array_initialization(); il, it = al, T('Array', L(a))
+            elif depth <= 0:
+                el, e = self.enumerated_value(); il, it = el, T('EnumeratedValue', e)
             else:
                 sl, s = self.structure_initialization(depth - 1); il, it = sl, T('Structure', L(s))
             elems.append((nl + [G, ('p', ':='), G] + il, N('StructureElementInit', ('name', n), ('init', it))))
@@ -466,6 +480,7 @@ class Gen:
         """one of the eight forms -> lex, DataTypeDeclarationKind"""
         rng = self.rng
         k = rng.choice(['enum', 'enum-default', 'enum-alias-default', 'subrange', 'array', 'struct', 'struct-init', 'string', 'string-paren', 'simple', 'latebound'])
+        if self.renderable: k = rng.choice(['enum', 'enum-default', 'enum-alias-default', 'struct', 'string', 'latebound'])
         self.features.add('type:' + k)
         nl, nt = self.type_name()
         head = nl + [G, ('p', ':'), G]
@@ -496,6 +511,7 @@ class Gen:
             for _ in range(rng.randint(1, 3)):
                 el, e = self.ident()
                 r = rng.random()
+                if self.renderable: r = 0.9
                 if r < 0.2:
                     al, a = self.array_specification(); init = self.array_initialization() if rng.random() < 0.4 else None
                     il = al + ([G, ('p', ':='), G] + init[0] if init else [])
@@ -547,6 +563,7 @@ class Gen:
         names = [self.ident() for _ in range(rng.choice([1, 1, 1, 2, 3]))]
         nlex = sep([n[0] for n in names], [G, ('p', ','), G]) + [G, ('p', ':'), G]
         k = rng.choice(['ambiguous', 'ambiguous', 'ambiguous', 'struct-init', 'string', 'array', 'fb'])
+        if self.renderable: k = rng.choice(['ambiguous', 'ambiguous', 'struct-init', 'string'])
         self.features.add('var:' + k)
         if k == 'ambiguous':
             il, it = self.spec_init_ambiguous()
@@ -588,7 +605,7 @@ class Gen:
             self.features.add(f'block:{cls}:{q}')
             decls = []
             for _ in range(rng.randint(1, 3)):
-                if cls == 'VAR_INPUT' and rng.random() < 0.2:
+                if cls == 'VAR_INPUT' and rng.random() < 0.2 and not self.renderable:
                     names = [self.ident() for _ in range(rng.choice([1, 2]))]
                     edge = rng.choice(['R_EDGE', 'F_EDGE'])
                     decls.append(sep([n[0] for n in names], [G, ('p', ','), G]) + [G, ('p', ':'), G, ('kw', 'BOOL'), G, ('kw', edge)])
@@ -608,6 +625,7 @@ class Gen:
                 names = [self.ident() for _ in range(rng.choice([1, 2]))]
                 nlex = sep([n[0] for n in names], [G, ('p', ','), G]) + [G, ('p', ':'), G]
                 r = rng.random()
+                if self.renderable: r = 0.1
                 if r < 0.5:
                     if rng.random() < 0.5: tl, tt, _ = self.elementary(['INT', 'BOOL', 'REAL'])
                     else: tl, tt = self.type_name()
@@ -645,6 +663,7 @@ class Gen:
                 nl, n = self.ident()
                 txt, loc = rng.choice([('%I*', 'I'), ('%Q*', 'Q'), ('%M*', 'M')])
                 k = rng.choice(['elem', 'named', 'string', 'wstring', 'array', 'subrange', 'values'])
+                if self.renderable: k = rng.choice(['elem', 'named', 'string', 'wstring'])
                 self.features.add('incomplete:' + k)
                 if k == 'elem':
                     tl, tt, _ = self.elementary(['INT', 'BOOL', 'WORD', 'REAL']); il, it = tl, self.simple_init(tt, None)
@@ -761,10 +780,11 @@ class Gen:
                 bl, b = self.body(allow_sfc=False)
                 elems.append(([('kw', 'ACTION'), G] + nl + [G, ('p', ':'), NL] + bl + [('kw', 'END_ACTION')], T('Action', N('Action', ('name', n), ('body', b)))))
             else:
-                name = self.ident() if rng.random() < 0.3 else None
-                prio = self.integer(0, 9) if rng.random() < 0.3 else None
+                name = self.ident() if rng.random() < 0.3 and not self.renderable else None
+                prio = self.integer(0, 9) if rng.random() < 0.3 and not self.renderable else None
                 def steps():
                     k = rng.choice([1, 1, 2, 3, 4])
+                    if self.renderable: k = 1
                     names = [self.ident() for _ in range(k)]
                     if k == 1: return names[0][0], [names[0][1]]
                     self.features.add(f'sfc:steps{k}')
@@ -801,16 +821,16 @@ class Gen:
         nl, n = self.ident()
         lex = [('kw', 'CONFIGURATION'), G] + nl + [NL]
         g = []
-        if rng.random() < 0.6:
+        if rng.random() < 0.6 and not self.renderable:
             gl, g = self.global_vars(); lex += gl
         rl, r = self.ident(); tl, t = self.ident()
         lex += [('kw', 'RESOURCE'), G] + rl + [G, ('kw', 'ON'), G] + tl + [NL]
         rg = []
-        if rng.random() < 0.3:
+        if rng.random() < 0.3 and not self.renderable:
             gl, rg = self.global_vars(); lex += gl
         tasks = []
         tnames = []
-        for _ in range(rng.randint(0, 2)):
+        for _ in range(0 if self.renderable else rng.randint(0, 2)):
             tnl, tn = self.ident(); tnames.append((tnl, tn))
             dur = self.constant(['dur']) if rng.random() < 0.7 else None
             pl, pv = self.integer(0, 20)
@@ -828,7 +848,7 @@ class Gen:
         lex += sep([p[0] for p in progs], [G, ('p', ';'), NL]) + [('p', ';'), NL, ('kw', 'END_RESOURCE'), NL]
         res = N('ResourceDeclaration', ('name', r), ('resource', t), ('global_vars', L(rg)), ('tasks', L(tasks)), ('programs', L([p[1] for p in progs])))
         fb_inits, loc_inits = [], []
-        if rng.random() < 0.4:
+        if rng.random() < 0.4 and not self.renderable:
             self.features.add('var_config')
             inits = []
             for _ in range(rng.randint(1, 2)):
